@@ -88,6 +88,12 @@ func (st StructField) Exported() bool {
 	if name := st.Tag.Get("gomacro"); name == "ignore" {
 		return false
 	}
+	if st.Field.Embedded() {
+		// like encoding/json, an embedded struct is visible even if its type is not exported
+		if _, isStruct := st.Field.Type().Underlying().(*types.Struct); isStruct {
+			return true
+		}
+	}
 	return st.Field.Exported()
 }
 
